@@ -4,7 +4,8 @@ Declarative specification of the in-toto artifact-rule queue algorithm (property
 The spec is *pointwise*: for a rule and a single artifact it says whether the rule describes
 (consumes) the artifact; for a rule and a queue whether the rule fails.  The interpreter of the
 model (a loop over Go-style sets with in-place clean-up of maps) is proved equal to
-"filter the queue by `consumes`, rule after rule" in Proofs/Rules.lean.
+"filter the queue by `consumes`, rule after rule" in Proofs/Rules.lean (links with clean artifact
+names) and Proofs/RulesAllNames.lean (all links: the spec applies to the links with cleaned names).
 -/
 import InToto.Model.Rules
 
@@ -73,7 +74,7 @@ def parseAll : List (List Str) → Option (List Rule)
 def CleanArts (a : Arts) : Prop := ∀ k ∈ artsKeys a, Path.clean k = k
 
 /-- All artifact names recorded in the links are clean paths (what `RecordArtifacts` yields for
-    directory roots); then `verifyMatchRule`'s in-place clean-up is the identity. -/
+    directory roots); then the clean-up of names (`cleanArts`) is the identity. -/
 def CleanCtx (ctx : Ctx) : Prop :=
   ∀ e ∈ ctx, ∀ l, e.2 = some l → CleanArts l.materials ∧ CleanArts l.products
 
